@@ -71,10 +71,10 @@ def run(ctx):
         if h and key not in seen:
             seen.add(key)
             simh.append(h)
-    budget_exh = 250 if quick else 6000
+    budget_exh = 250 if quick else 1800
     chosen = vlib.sample_list(ctx.rng, hists, budget_exh)
     ctx.exhaustive = len(chosen) == total_exh
-    counters = {'roll': 0, 'roll_budget': 4 if quick else 60, 'sweep': 0, 'sweep_budget': 40 if quick else 1500}
+    counters = {'roll': 0, 'roll_budget': 4 if quick else 24, 'sweep': 0, 'sweep_budget': 40 if quick else 400}
     cases = []
     dropped_roll = 0
     order = chosen + simh
